@@ -96,6 +96,16 @@ impl Prop for C07 {
                 }
             }
         }
+        if rng.pct(15) {
+            // a bystander: another caller in the same process parses a small valid document while the client is
+            // stopped in the middle of one of its inputs
+            let b = crate::mutate::base_document(&mut rng);
+            replicas.push(Replica { role: "bystander".into(), entropy: rng.u128(), steps: vec![Step { input: Input::Raw(b), plan: Plan::slice(), cfg: 0 }], warmup: vec![] });
+            super::maybe_park(&mut rng, &mut replicas, 100, &|inp| match inp {
+                Input::Raw(b) => b.len(),
+                _ => 0,
+            });
+        }
         Scenario::Session(Session { docs: vec![], alts: vec![], replicas, opts })
     }
     fn exec(&self, sc: &Scenario, ctr: &mut Ctr) -> Result<Exec, String> {
